@@ -279,6 +279,103 @@ pub fn do_op<K: KeyT, V: ValT>(m: &mut Map<K, V>, w: &[&str], chk: &mut Vec<Stri
                 o
             }
         },
+        // ---------------- the other entry APIs (C14): rustc_entry, raw_entry_mut, entry_ref ----------------
+        "rentry_or_insert" => {
+            let v = m.rustc_entry(K::mk(n(1), n(2))).or_insert(V::mk(n(3)));
+            Out::Val(v.val())
+        }
+        "rentry_insert" => match m.rustc_entry(K::mk(n(1), n(2))) {
+            hashbrown::hash_map::RustcEntry::Occupied(mut e) => {
+                let old = e.insert(V::mk(n(3)));
+                let o = Out::Val(old.val());
+                held.push(Box::new(old));
+                o
+            }
+            hashbrown::hash_map::RustcEntry::Vacant(e) => {
+                e.insert(V::mk(n(3)));
+                Out::None
+            }
+        },
+        "rentry_remove" => match m.rustc_entry(K::mk(n(1), n(2))) {
+            hashbrown::hash_map::RustcEntry::Occupied(e) => {
+                let (k, v) = e.remove_entry();
+                let o = Out::KV(k.stamp(), v.val());
+                held.push(Box::new((k, v)));
+                o
+            }
+            hashbrown::hash_map::RustcEntry::Vacant(_) => Out::None,
+        },
+        "rentry_drop" => match m.rustc_entry(K::mk(n(1), n(2))) {
+            hashbrown::hash_map::RustcEntry::Occupied(_) => Out::Bool(true),
+            hashbrown::hash_map::RustcEntry::Vacant(_) => Out::Bool(false),
+        },
+        "raw_or_insert" => {
+            let k = K::mk(n(1), n(2));
+            let val = V::mk(n(3));
+            let hb = m.hasher().clone();
+            let h = std::hash::BuildHasher::hash_one(&hb, &k);
+            let (_, v) = m.raw_entry_mut().from_key_hashed_nocheck(h, &k).or_insert(k, val);
+            Out::Val(v.val())
+        }
+        "raw_insert" => {
+            let k = K::mk(n(1), n(2));
+            match m.raw_entry_mut().from_key(&k) {
+                hashbrown::hash_map::RawEntryMut::Occupied(mut e) => {
+                    let old = e.insert(V::mk(n(3)));
+                    let o = Out::Val(old.val());
+                    held.push(Box::new(old));
+                    o
+                }
+                hashbrown::hash_map::RawEntryMut::Vacant(e) => {
+                    e.insert(k, V::mk(n(3)));
+                    Out::None
+                }
+            }
+        }
+        "raw_remove" => {
+            let k = K::mk(n(1), n(2));
+            match m.raw_entry_mut().from_key(&k) {
+                hashbrown::hash_map::RawEntryMut::Occupied(e) => {
+                    let (k2, v) = e.remove_entry();
+                    let o = Out::KV(k2.stamp(), v.val());
+                    held.push(Box::new((k2, v)));
+                    o
+                }
+                hashbrown::hash_map::RawEntryMut::Vacant(_) => Out::None,
+            }
+        }
+        "raw_get" => match m.raw_entry().from_key(&K::mk(n(1), 999)) {
+            Some((k, v)) => Out::KV(k.stamp(), v.val()),
+            None => Out::None,
+        },
+        "eref_or_insert" => {
+            let k = K::mk(n(1), n(2));
+            let v = m.entry_ref(&k).or_insert(V::mk(n(3)));
+            Out::Val(v.val())
+        }
+        "eref_insert" => {
+            let k = K::mk(n(1), n(2));
+            match m.entry_ref(&k) {
+                hashbrown::hash_map::EntryRef::Occupied(mut e) => {
+                    let old = e.insert(V::mk(n(3)));
+                    let o = Out::Val(old.val());
+                    held.push(Box::new(old));
+                    o
+                }
+                hashbrown::hash_map::EntryRef::Vacant(e) => {
+                    e.insert(V::mk(n(3)));
+                    Out::None
+                }
+            }
+        }
+        "eref_drop" => {
+            let k = K::mk(n(1), n(2));
+            let r = match m.entry_ref(&k) {
+                hashbrown::hash_map::EntryRef::Occupied(_) => Out::Bool(true),
+                hashbrown::hash_map::EntryRef::Vacant(_) => Out::Bool(false),
+            };
+            r
+        }
         "entry_or_insert" => {
             let v = m.entry(K::mk(n(1), n(2))).or_insert(V::mk(n(3)));
             Out::Val(v.val())
